@@ -1,0 +1,27 @@
+//go:build verif
+
+package conf
+
+// Contracts for the deductive verifier in /verif (govc). Comment-only file: adds no code.
+
+// Key canonicalisation of a decoded document (so that JSON, YAML and TOML keys of any case meet the struct's
+// lower-cased field names): it is applied at EVERY depth - a map is rebuilt key by key, every element of a list
+// goes through the same normalisation again (so lists of lists of maps are reached), anything else is kept.
+//@ func toCamelCaseInterface
+//@   prop C05
+//@   opaque toCamelCaseKeyMap, toCamelCaseInterface
+//@   let isMap = typeis(v, map[string]any)
+//@   let isList = typeis(v, []any)
+//@   loop 1 invariant -1 <= rangeindex
+//@   loop 1 iteration-ensures [every-element-normalised-again] calls(toCamelCaseInterface) == 1 && arg(toCamelCaseInterface, 0) == at_head(unbox(v, []any)[rangeindex + 1]) && calls(toCamelCaseKeyMap) == 0 && len(arr) == at_head(len(arr)) + 1 && arr[at_head(len(arr))] == ret(toCamelCaseInterface)
+//@   ensures [map-rebuilt] isMap ==> calls(toCamelCaseKeyMap) == 1 && arg(toCamelCaseKeyMap, 0) == unbox(v, map[string]any) && typeis(result, map[string]any) && unbox(result, map[string]any) == ret(toCamelCaseKeyMap)
+//@   ensures [scalar-kept] !isMap && !isList ==> result == v && calls(toCamelCaseKeyMap) == 0 && calls(toCamelCaseInterface) == 0
+//@   ensures [list-stays-a-list] isList ==> typeis(result, []any)
+
+// toCamelCaseKeyMap: every entry is stored under the canonical form of its key with its value normalised.
+//@ func toCamelCaseKeyMap
+//@   prop C05
+//@   opaque toCamelCase, toCamelCaseInterface
+//@   requires m != nil
+//@   loop 1 iteration-ensures [entry-stored-under-canonical-key] calls(toCamelCase, k) == 1 && calls(toCamelCaseInterface, m[k]) == 1 && has(ret, ret(toCamelCase)) && ret[ret(toCamelCase)] == ret(toCamelCaseInterface)
+//@   ensures [fresh-map] fresh(result)
